@@ -66,7 +66,7 @@ func (writer *SSTableStreamWriter) Open() error {
 	}
 
 	writer.metaFilePath = filepath.Join(writer.opts.basePath, MetaFileName)
-	metaFile, err := os.OpenFile(writer.metaFilePath, os.O_WRONLY|os.O_CREATE, 0666)
+	metaFile, err := os.OpenFile(writer.metaFilePath, os.O_WRONLY|os.O_CREATE|os.O_TRUNC, 0666)
 	if err != nil {
 		return fmt.Errorf("error while opening metadata file in '%s': %w", writer.opts.basePath, err)
 	}
